@@ -157,6 +157,7 @@ def run_hypothesis(mod, ctx, strategy, n_examples, seed, shrink_budget=90.0):
         ctx.last_case = case
         try:
             ctx.count()
+            common.cold_module()   # every case starts from empty process-wide state: a run is a pure function of its case
             mod.run_case(case, ctx)
         except Violation as v:
             if state["fail_t"] is None:
@@ -224,6 +225,7 @@ def worker_main(prop_id, tier, seed, shard, nshards, out_path):
                 ctx.last_case = case
                 try:
                     ctx.count()
+                    common.cold_module()
                     mod.run_case(case, ctx)
                 except Violation as v:
                     found = (v, case)
@@ -259,6 +261,7 @@ def replay_case(prop_id, case, tier="quick", exclude=None):
     ctx = Ctx(prop_id, tier)
     ctx.known = list(exclude or [])  # a plain replay reports everything
     try:
+        common.cold_module()
         mod.run_case(case, ctx)
     except Violation as v:
         return v
